@@ -220,7 +220,7 @@ theorem isChannel_toLower (s : Str) : isChannel (toLower s) = isChannel s := by
   cases s with
   | nil => rfl
   | cons c cs =>
-    have hl := splitNone1_length_toLower (c :: cs)
+    have hl := all_noSpace_toLower (c :: cs)
     have h1 := contains_toLower mem_special_comma (c :: cs)
     have h2 := contains_toLower mem_special_bell (c :: cs)
     have h3 := toLower_length (c :: cs)
